@@ -15,7 +15,7 @@ ID = "C47"
 LEVEL = "exploration"
 TECHNIQUE = "exhaustive header families x segmentations, exhaustive single-site corruptions, reference validator"
 RULE = ("valid: every header of the families v1 {TCP4, TCP6 (incl. the 104-byte worst case), UNKNOWN (bare / with "
-        "ignored text)} and v2 {PROXY, LOCAL} x {INET, INET6, UNIX, UNSPEC} x {STREAM, DGRAM} x {no TLV, TLV} x payload "
+        "ignored text)} and v2 {PROXY, LOCAL} x {INET, INET6, UNIX (filesystem paths and abstract-namespace paths with leading/inner NUL), UNSPEC} x {STREAM, DGRAM} x {no TLV, TLV} x payload "
         "{empty, 'x', 'PROXY ', CRLF+byte} delivered whole, with every single cut, with every pair of cuts "
         "(quick: streams <= 128 bytes; thorough: all; thorough also every 3 cuts for streams <= 48 bytes) and byte-wise. invalid: every byte of six base headers replaced by "
         "NUL / space / 'X' / 0xFF, every single-field corruption from a field grammar (keyword, protocol token, "
@@ -23,7 +23,7 @@ RULE = ("valid: every header of the families v1 {TCP4, TCP6 (incl. the 104-byte 
         "short garbage, each whole and with every single cut (thorough: every pair of cuts for streams <= 64 bytes). The reference validator decides "
         "valid (addresses, payload) / invalid (reason) / incomplete. non-trivial = distinct (stream, segmentation) with a "
         "delivery boundary strictly inside the header, or a corrupted stream the reference rejects")
-BOUNDS = {"quick": "26 valid headers x 4 payloads: all 1-cuts, all 2-cuts for streams <= 128 bytes; ~1500 corrupted streams x every single cut",
+BOUNDS = {"quick": "29 valid headers x 4 payloads: all 1-cuts, all 2-cuts for streams <= 128 bytes; ~1500 corrupted streams x every single cut",
           "thorough": "all 1- and 2-cuts for every stream, all 3-cuts for streams <= 48 bytes; corrupted streams x every 1-cut (2-cuts <= 64 bytes)"}
 ASSUMPTIONS = [
     "validity is decided by the PROXY protocol specification (haproxy.org proxy-protocol.txt, sections 2.1/2.2): "
@@ -167,8 +167,8 @@ def reference(s):
             src = ("ip", ipaddress.IPv6Address(blk[0:16]), struct.unpack("!H", blk[32:34])[0])
             dst = ("ip", ipaddress.IPv6Address(blk[16:32]), struct.unpack("!H", blk[34:36])[0])
         elif need == 216:
-            src = ("unix", blk[0:108].split(b"\0", 1)[0])
-            dst = ("unix", blk[108:216].split(b"\0", 1)[0])
+            src = ("unix", blk[0:108].rstrip(b"\0"))          # only the trailing NUL padding is not part of the path:
+            dst = ("unix", blk[108:216].rstrip(b"\0"))        # abstract-namespace paths start with / contain NUL
         return ("valid", src, dst, s[16 + ln:], 16 + ln, 2)
     kw = b"PROXY "
     if n < 6:
@@ -281,6 +281,11 @@ def valid_headers(seed):
     for fp, blk in ((0x11, a4), (0x12, a4), (0x21, a6), (0x22, a6), (0x31, au), (0x32, au), (0x00, b"")):
         for t in (b"", tlv):
             h.append(v2(1, fp, blk, t))
+    ab = b"\0abstract-src".ljust(108, b"\0") + b"\0in\0ner\0x".ljust(108, b"\0")      # Linux abstract namespace
+    am = b"/p\0q".ljust(108, b"\0") + (b"\0" + b"e" * 107)                               # inner NUL; full-length abstract
+    for blk in (ab, am):
+        h.append(v2(1, 0x31, blk))
+    h.append(v2(1, 0x32, ab, tlv))
     h.append(v2(1, 0x00, a4))               # UNSPEC with ignored bytes
     h.append(v2(0, 0x00, b""))              # LOCAL
     h.append(v2(0, 0x11, a4, tlv))          # LOCAL with an (ignored) address block
